@@ -97,6 +97,9 @@ impl PanicInfo {
     pub fn site(&self) -> String {
         let loc = self.loc.as_str();
         let loc = loc.strip_prefix("/repo/").unwrap_or(loc);
+        // dependency sources: keep only `<crate>-<version>/src/...`
+        let loc = loc.split_once("/registry/src/").map_or(loc, |(_, rest)| rest.split_once('/').map_or(rest, |(_, r)| r));
+        let loc = loc.split_once("/library/").map_or(loc, |(_, rest)| rest);
         // strip column
         let mut parts = loc.rsplitn(2, ':');
         let _col = parts.next();
